@@ -329,6 +329,17 @@ def stop_grid_runs(ctx):
                 run.solve()
                 if rng.random() < 0.3:
                     run.solve()
+            if len(runs) % 4 == 0 and eps >= 1e-3:
+                # the search is continued with other parameters: a larger budget and / or a finer accuracy set on the parameters
+                # object, then Solve again - it must run on to the NEW criterion (and not at all if that already holds)
+                for _ in range(rng.choice([1, 2])):
+                    how = rng.choice(["budget", "budget", "eps", "both", "looser"])
+                    new_limit = run.params.itersLimit + rng.choice([1, 2, 5, 9]) if how in ("budget", "both") else None
+                    new_eps = float(run.params.eps) / rng.choice([2, 4]) if how in ("eps", "both") else (float(run.params.eps) * 2 if how == "looser" else None)
+                    run.set_params(limit=new_limit, eps=new_eps)
+                    if rng.random() < 0.3:
+                        run.dgi(1)
+                    run.solve()
             runs.append(run)
     return runs
 
